@@ -439,27 +439,42 @@ func (self *visitorUserNode) OnObjectBegin(capacity int) error {
 func (self *visitorUserNode) encodeMapKey(key string, t proto.Type) error {
 	switch t {
 	case proto.INT32:
-		t, _ := strconv.ParseInt(key, 10, 32)
+		t, err := strconv.ParseInt(key, 10, 32)
+		if err != nil {
+			return err
+		}
 		if err := self.p.WriteInt32(int32(t)); err != nil {
 			return err
 		}
 	case proto.UINT32:
-		t, _ := strconv.ParseInt(key, 10, 32)
+		t, err := strconv.ParseUint(key, 10, 32)
+		if err != nil {
+			return err
+		}
 		if err := self.p.WriteUint32(uint32(t)); err != nil {
 			return err
 		}
 	case proto.UINT64:
-		t, _ := strconv.ParseInt(key, 10, 64)
-		if err := self.p.WriteUint64(uint64(t)); err != nil {
+		t, err := strconv.ParseUint(key, 10, 64)
+		if err != nil {
+			return err
+		}
+		if err := self.p.WriteUint64(t); err != nil {
 			return err
 		}
 	case proto.INT64:
-		t, _ := strconv.ParseInt(key, 10, 64)
-		if err := self.p.WriteInt64(int64(t)); err != nil {
+		t, err := strconv.ParseInt(key, 10, 64)
+		if err != nil {
+			return err
+		}
+		if err := self.p.WriteInt64(t); err != nil {
 			return err
 		}
 	case proto.BOOL:
-		t, _ := strconv.ParseBool(key)
+		t, err := strconv.ParseBool(key)
+		if err != nil {
+			return err
+		}
 		if err := self.p.WriteBool(t); err != nil {
 			return err
 		}
